@@ -295,6 +295,17 @@ def rounded_page_cases():
     return out
 
 
+def far_origin_cases():
+    """Valid viewBoxes whose origin is 2^53 times their size and more (a tile of a huge map):
+    min + size is not representable, the size itself is perfectly ordinary."""
+    out = []
+    for vbox in ((1e16, 0, 1, 1), (0, -1e17, 8, 4), (9007199254740993, 0, 1, 2), (4e16, 4e16, 2, 2),
+                 (-2.0 ** 60, 2.0 ** 60, 3, 5), (1e300, 0, 1, 1)):
+        for doc in ((200, 300), (30, 20)):
+            out.append((vbox, doc))
+    return out
+
+
 def _rounded_chunk(cases):
     part = core.Part()
     for vbox, doc in cases:
@@ -371,6 +382,7 @@ def run(ctx):
     part.merge(core.fan_out(ctx, _spelled_chunk, [[sp] for sp in SPELLED]))
     part.merge(core.fan_out(ctx, _separator_chunk, [[case] for case in SEPARATOR_CASES]))
     part.merge(core.fan_out(ctx, _rounded_chunk, core.split(rounded_page_cases(), 8)))
+    part.merge(core.fan_out(ctx, _rounded_chunk, core.split(far_origin_cases(), 4)))
     for case in INVALID:
         for clause, msg in check_invalid(case):
             part.violation(f"{clause}:{case!r}", msg, {"kind": "invalid", "case": list(case)})
